@@ -80,6 +80,18 @@ func (u *UploadMap) extract(value interface{}, path string) {
 	}
 }
 
+// uploadReader returns an independent reader when the file supports random access:
+// one client variable can feed sub-requests to several services, which are built concurrently
+func uploadReader(f requests.File) io.Reader {
+	if ra, ok := f.(interface {
+		io.ReaderAt
+		Size() int64
+	}); ok {
+		return io.NewSectionReader(ra, 0, ra.Size())
+	}
+	return f
+}
+
 func prepareMultipart(payload []byte, uploadMap UploadMap) (body []byte, contentType string, err error) {
 	var b = bytes.Buffer{}
 	var fw io.Writer
@@ -112,7 +124,7 @@ func prepareMultipart(payload []byte, uploadMap UploadMap) (body []byte, content
 			return b.Bytes(), w.FormDataContentType(), e
 		}
 
-		_, e = io.Copy(fw, uploadVariable.upload.File)
+		_, e = io.Copy(fw, uploadReader(uploadVariable.upload.File))
 		if e != nil {
 			return b.Bytes(), w.FormDataContentType(), e
 		}
